@@ -332,6 +332,14 @@ func gen(tier string, r *lib.Rand, emitNow func(string)) {
 	for _, e := range exprMenu {
 		emit("calc " + hex(e))
 	}
+	// every byte in operator position, with a zero and a non-zero right operand, with and without
+	// blanks, and in operand position: no byte may turn into a crash (a new operator included)
+	for b := 0; b < 256; b++ {
+		c := string([]byte{byte(b)})
+		for _, e := range []string{"7" + c + "0", "7" + c + "3", "7 " + c + " 0", "2^8" + c + "0^1", c + "7", "7" + c, "7" + c + c + "0", "0" + c + "0"} {
+			emit("calc " + hex(e))
+		}
+	}
 	for i := 0; i < nexpr; i++ {
 		if e := randExpr(r); safeExpr(e) {
 			emit("calc " + hex(e))
